@@ -228,6 +228,7 @@ func runC06(c *Ctx) {
 		"C06.W0 the index setters only skip the write when the stored index is already >= the new one",
 		"C06.X the 'service exists' argument of the per-service index lookup is the constant true or an accumulator updated on every iteration over the service's instances (so it is false only when there is none): otherwise the older extinction index is reported for a live service",
 		"C06.R for every exported index-returning reader and every table whose rows it reads (through any state helper), one of the index keys it consults names that table (or is a per-entity key that every write of the table bumps): otherwise a write to that table changes the result without moving the reported index",
+		"C06.K the per-service index is keyed by the service name at every site that builds, bumps or reads it (never by a service or check ID)",
 		"C06.E in every blocking-query body of the RPC endpoints, the index returned by each watched state-store reader whose data is used reaches the reply (assigned, joined or compared), never dropped",
 		"C06.Q.raise the blocking-query loop raises its wait threshold on a not-found result only when the previous pass was not-found too (found → deleted is a change)",
 		"C06.Q the blocking-query loop sets query meta after every query run and returns only on index progress, error, timeout or abandon; the reported index is never zero",
@@ -283,6 +284,7 @@ func runC06(c *Ctx) {
 	checkServiceExistsArgument(c)
 	checkReaderTableCoverage(c)
 	checkEndpointIndexesJoined(c)
+	checkServiceIndexKeyIsName(c)
 }
 
 // ---------------------------------------------------------------------------
